@@ -80,7 +80,7 @@ type variation struct {
 	name string
 	env  []string
 	db   string
-	mode string // process history of the replica: plain | restart | restart-all | sim | sim-restart | statesync | statesync-all
+	mode string // process history of the replica: plain | restart | restart-all | restart-histq | histq | sim | sim-restart | statesync | statesync-all
 }
 
 var variations = []variation{
@@ -90,12 +90,13 @@ var variations = []variation{
 	{"procs2-kiritimati-gogc1-statesync", []string{"GOMAXPROCS=2", "TZ=Pacific/Kiritimati", "GOGC=1"}, "", "statesync-all"},
 	{"procs8-abidjan-nopreempt-simrestart", []string{"GOMAXPROCS=8", "TZ=Africa/Abidjan", "GODEBUG=asyncpreemptoff=1"}, "", "sim-restart"},
 	{"procs32-lordhowe-gogc400-leveldb-restartall", []string{"GOMAXPROCS=32", "TZ=Australia/Lord_Howe", "GOGC=400"}, "goleveldb", "restart-all"},
+	{"procs3-chatham-leveldb-restarthistq", []string{"GOMAXPROCS=3", "TZ=Pacific/Chatham"}, "goleveldb", "restart-histq"},
 }
 
 // in-process replicas of every history (besides the generator's own instance, which also served the generator's
 // state reads and gas simulations): >= 8 executions in one process so that Go's per-range-statement randomisation of
 // map iteration gets enough draws, and every process-history mode is covered.
-var inprocModes = []string{"plain", "restart-all", "sim", "statesync", "restart", "plain", "sim-restart", "plain"}
+var inprocModes = []string{"plain", "restart-all", "sim", "statesync", "restart", "restart-histq", "sim-restart", "histq"}
 
 func runChild(v variation, idx int, histPath, workDir string) ([]string, string, error) {
 	return runChildBin(os.Args[0], v, idx, histPath, workDir)
@@ -314,9 +315,11 @@ func TestC17(t *testing.T) {
 		if err = json.Unmarshal(bz, &h2); err != nil {
 			t.Fatal(err)
 		}
+		var refExports []string
+		refExportName := ""
 		for ri, mode := range inprocModes {
 			name := fmt.Sprintf("inproc-%d-%s", ri, mode)
-			lines, st, err := replayMode(&h2, mode, "", workDir, hseed*131+int64(ri))
+			lines, exports, st, err := replayModeX(&h2, mode, "", workDir, hseed*131+int64(ri), true)
 			for k, v := range st {
 				out.Stats.Hist["replica:"+mode+":"+k] += v
 			}
@@ -327,6 +330,30 @@ func TestC17(t *testing.T) {
 			executions++
 			out.Count("replica:" + mode)
 			compare(out, g.hist, g.kinds, histPath, "parent-generator", ref, name, lines)
+			// genesis export -> import: compared between the replicas (the generator's own execution does not export)
+			if refExportName == "" {
+				refExports, refExportName = exports, name
+				for _, e := range exports {
+					switch {
+					case strings.Contains(e, "import: "):
+						imp := e[strings.Index(e, "import: ")+8:]
+						out.Count("export+import:" + imp[:min(len(imp), 9)])
+					case strings.Contains(e, "export=panic") || strings.Contains(e, "export=err"):
+						out.Count("export:failed")
+					default:
+						out.Count("export:ok")
+					}
+				}
+			} else if strings.Join(exports, "\n") != strings.Join(refExports, "\n") {
+				first := "<count>"
+				for i := 0; i < len(exports) && i < len(refExports); i++ {
+					if exports[i] != refExports[i] {
+						first = refExports[i] + "  VS  " + exports[i]
+						break
+					}
+				}
+				out.ViolateWith(fmt.Sprintf("nondeterminism: genesis export / import observations differ between executions (%s vs %s): %.300s", refExportName, name, first), describeHistory(g.hist, histPath))
+			}
 		}
 
 		// (b) fresh processes, started one second apart
@@ -416,6 +443,9 @@ func TestC17(t *testing.T) {
 		out.Emit(pr[0], pr[1])
 		out.Nontrivial("ack:" + pr[1][:min(len(pr[1]), 18)])
 	}
+	// GetSwitchParams: the real keeper against its regenerated, interpreted statement program + branch isolation of parameter reads
+	out.Reset("models-switchparams")
+	switchOps(out, lastGen)
 	modelOps(t, out, seed, lastGen)
 }
 
